@@ -844,6 +844,14 @@ impl<T: Transport + 'static> SyncEngine<T> {
                                             action: "create".to_string(),
                                         });
                                     }
+                                    // Represent the failure in the machine-readable output
+                                    if json {
+                                        SyncEvent::Error {
+                                            path: task.dest_path.clone(),
+                                            error: e.to_string(),
+                                        }
+                                        .emit();
+                                    }
                                     Err(e)
                                 }
                             }
@@ -991,6 +999,14 @@ impl<T: Transport + 'static> SyncEngine<T> {
                                             action: "update".to_string(),
                                         });
                                     }
+                                    // Represent the failure in the machine-readable output
+                                    if json {
+                                        SyncEvent::Error {
+                                            path: task.dest_path.clone(),
+                                            error: e.to_string(),
+                                        }
+                                        .emit();
+                                    }
                                     Err(e)
                                 }
                             }
@@ -1069,6 +1085,14 @@ impl<T: Transport + 'static> SyncEngine<T> {
                                         error: e.to_string(),
                                         action: "delete".to_string(),
                                     });
+                                }
+                                // Represent the failure in the machine-readable output
+                                if json {
+                                    SyncEvent::Error {
+                                        path: task.dest_path.clone(),
+                                        error: e.to_string(),
+                                    }
+                                    .emit();
                                 }
                                 Err(e)
                             }
